@@ -1528,3 +1528,9 @@ mutant("c11-limit-check-removed", "C11", "C11-D5", "engine.io/transport/webtrans
 				return nil, ErrLimitReached
 			}
 """, "")
+mutant("c10-reflect-isvalid-dropped", "C10", "C10-D7", "parser/json/binary.go",
+       "		if !fv.IsValid() || !fv.CanInterface() {", "		if !fv.CanInterface() {", count=0)
+mutant("c10-reflect-kind-guard-dropped", "C10", "C10-D7", "parser/json/binary.go",
+       "if pholder.Kind() == reflect.Bool && pholder.Bool() && num.Kind() == reflect.Float64 {", "if pholder.Bool() && num.Kind() == reflect.Float64 {", count=0)
+mutant("c10-parse-error-under-lock", "C10", "C10-D8", "client_manager.go",
+       "				go m.onClose(ReasonParseError, err)", "				m.onClose(ReasonParseError, err)")
